@@ -194,10 +194,26 @@ func (fr *Frame) analyzeLoops() {
 	for h := range fr.loops {
 		heads = append(heads, h)
 	}
-	sort.Slice(heads, func(i, j int) bool { return loopPos(fr.loops[heads[i]]) < loopPos(fr.loops[heads[j]]) })
+	sort.Slice(heads, func(i, j int) bool {
+		pi, pj := loopPos(fr.loops[heads[i]]), loopPos(fr.loops[heads[j]])
+		if pi != pj {
+			return pi < pj
+		}
+		return heads[i].Index < heads[j].Index
+	})
 	for i, h := range heads {
 		li := fr.loops[h]
 		li.ordinal = i
+		if os.Getenv("VERIF_DEBUGLOOPS") != "" {
+			best := loopPos(li)
+			for b := range li.blocks {
+				for _, in := range b.Instrs {
+					if int(in.Pos()) == best {
+						fmt.Fprintf(os.Stderr, "LOOP %s #%d head=%d best=%d %s :: %s (%T)\n", fn.Name(), i, h.Index, best, fn.Prog.Fset.Position(in.Pos()), in, in)
+					}
+				}
+			}
+		}
 		if fr.fc != nil {
 			li.lc = fr.fc.Loops[i]
 		}
@@ -235,6 +251,10 @@ func loopPos(li *loopInfo) int {
 	best := int(^uint(0) >> 1)
 	for b := range li.blocks {
 		for _, in := range b.Instrs {
+			if _, ok := in.(*ssa.Phi); ok {
+				// a phi carries the position of the variable's declaration, which lies before every loop that assigns it
+				continue
+			}
 			if p := in.Pos(); p.IsValid() && int(p) < best {
 				best = int(p)
 			}
